@@ -65,6 +65,8 @@ def run(ctx):
     s = ev.run(fv, use_defaults=True)
     r, sv, dg, pt = P("r", tm.INT), P("s", tm.INT), P("digest", tm.INT), P("point", tm.TUPLE)
     G = (c03.GX, c03.GY)
+    # verification of a valid tuple never dies in a field helper's range check (e.g. reducing x(R) mod n with add_mod_p)
+    c03.check_operand_ranges(ctx, "C02.8", "bits.ecmath.verify", point_params=("point",), what="every tuple with r, s in [1, n-1] and a curve point")
     truthy = [e for e in s.returns() if not (e.value is False or e.value is None)]
     R.check("C02.1", "DOM", fv, "verify has a success exit", bool(truthy), "verify never reports success")
     for e in truthy:
@@ -94,6 +96,8 @@ def run(ctx):
     R.check("C02.6", "INTERVAL", fv, "digest reduced mod N before field arithmetic", not dig,
             "verify raises ValueError (not a verdict) for digest >= n", example="digest n + 1")
 
+    # ---- the DER layer sig_verify reads signatures through: every (r, s) the encoder can emit must decode (shared with C01)
+    c01.check_der(ctx, "C02.9")
     # ---- sig_verify
     fsv = ctx.fn("bits.utils.sig_verify")
     evs = ctx.evaluator(opaque={SMUL, PADD, "bits.ecmath.point_is_on_curve", "bits.pem.parse_asn1", "bits.ecmath.y_from_x"})
